@@ -10,6 +10,8 @@ import (
 
 func (m *Machine) callBuiltin(caller *frame, name string, args []value, site ssa.CallInstruction) value {
 	switch name {
+	case "gosx:swap":
+		return nil // (dispatched in callValue, which has the Builtin value)
 	case "len":
 		switch x := args[0].(type) {
 		case *String:
